@@ -15,7 +15,7 @@ RULE = ('same scheduler-pair histories as C01 (placements are made on partially 
 ASSUMPTIONS = ['see C01 (same engine)',
                'ContinuousJsrun slots are resource sets: only rank count and core distinctness are judged']
 normalise = schedgen.normalise
-BUDGET = {'quick': 100, 'thorough': 1500}
+BUDGET = {'quick': 160, 'thorough': 1500}
 
 
 def parts(tier):
